@@ -1053,3 +1053,60 @@ def r6_6(ctx):
         bad = [loc for loc in finals for blk in blks if not b.node_dominates(blk, loc[0])]
         ctx.ob("is_check_cords:%s:always-evaluated" % nm, not bad, b.where(bad[0]) if bad else b.where(b.term_loc(blks[0])),
                "the %s attack test lies on every path to a 'not attacked' answer%s" % (nm, "" if not bad else ": NOT so — it can be skipped (guarded by an extra condition), so some attacks of this kind are never seen"))
+
+
+def r6_7(ctx):
+    """Check detection is a function of the placement, the colour asked about and the cached king
+    squares: `is_check` and everything it calls read no other field of the position (not the side to
+    move, castling flags, en-passant target, key, ...).  The property quantifies over placements that
+    are "legal or not with respect to whose turn it is", so the answer may not depend on the turn."""
+    from wa import callgraph
+    from wa.mir import alias_of
+    f = ctx.facts
+    IC = "move_generation::is_check"
+    if not f.has_body(IC):
+        raise AnchorMissing(IC)
+    cg = callgraph.get(f)
+    cone = sorted(fn for fn in cg.cone(IC) if f.has_body(fn))
+    ctx.note_fn(*cone)
+    allowed = {"board", "white_king_location", "black_king_location"}
+    nreads = 0
+    for fn in cone:
+        b = f.body(fn)
+        bps = [i for i in range(1, b.arg_count + 1) if b.local_ty(i) in ("&board::BoardState", "&mut board::BoardState", "board::BoardState")]
+        if not bps:
+            continue
+        isb = {}
+
+        def board_ptr(l):
+            if l not in isb:
+                r, mode, proj = alias_of(b, l)
+                isb[l] = (r in bps and mode == "val" and not proj)
+            return isb[l]
+        reads = {}
+
+        def walk(x, loc):
+            if isinstance(x, dict):
+                if "local" in x and "proj" in x and isinstance(x["local"], int) and board_ptr(x["local"]):
+                    fs = [e["name"] for e in x["proj"] if e["k"] == "field"]
+                    if fs:
+                        reads.setdefault(fs[0], loc)
+                for v in x.values():
+                    walk(v, loc)
+            elif isinstance(x, list):
+                for v in x:
+                    walk(v, loc)
+        for loc, st in b.iter_stmts():
+            walk(st, loc)
+        for bb in b.normal:
+            if bb in b.reachable:
+                t = b.term(bb)
+                walk(t.get("args"), b.term_loc(bb))
+                walk(t.get("discr"), b.term_loc(bb))
+        short = fn.split("::")[-1]
+        for fld, loc in sorted(reads.items()):
+            nreads += 1
+            ctx.ob("%s:reads:%s" % (short, fld), fld in allowed, b.where(loc),
+                   "check detection reads BoardState.%s%s" % (fld, "" if fld in allowed else
+                                                            ": the answer then depends on more than the placement and the colour asked about (e.g. on whose turn it is)"))
+    ctx.floor("BoardState fields read by check detection", nreads, 2)
